@@ -22,6 +22,8 @@ func init() {
 			"(D5) the parser: the HTML test is applied to the trimmed line for as long as nothing has been written (no other condition stands before it) and its positive outcome returns the HTML error; what is written is exactly the trimmed line plus a newline, only for lines classified as rules, the classification sees only the trimmed line, and the rule count and checksum are advanced exactly once, over that same trimmed line, on the path that writes — so re-parsing the stored form reproduces count and checksum; the parse loop stops at the first line error and adds the bytes written. " +
 			"(D6) the two line classifiers (before / after the title was seen), evaluated over the finite domain {empty, first byte '#', first byte '!', binary-looking byte present, title prefix}, return the same verdict for every line. " +
 			"(D1, path form) at every return of updateIntl where ok can be true, ok is `err == nil` for the error returned or no path leads there from an assignment of a possibly non-nil error without crossing an edge on which that error was found nil; nil is stored to err only where it was already found nil; (D4, cont.) the reader handed to the parser never ends early without an error (no io.LimitReader / LimitedReader / SectionReader between the body and the parser). " +
+			"(D1, cont.) one pending file, one parse (shared with C14-D5); (D5, cont.) the parse that writes a list's file and the parse that reads it back take their scan buffers from one pool, so they accept the same lines. " +
+			"(D5, cont. 2) every parse of a list starts from a parser made for it by NewParser. " +
 			"Not decided: what counts as an HTML or binary line (isHTMLLine/parseLine internals), fault placement inside a body.",
 		RuleText:    "Path guards and reaching-store resolution on SSA; writers of the metadata fields are enumerated over the whole module.",
 		Assumptions: []string{"a failure of CloseReplace itself (rename/fsync error) is outside the enumerated faults"},
@@ -92,6 +94,9 @@ func runC15(c *Ctx) {
 	r.Floor("C15-D1", "CloseReplace-sites", nClose, 1)
 
 	c15UpdateIntl(c)
+	onePendingFileOneParse(c, "C15-D1")
+	c15SameScanBuffers(c)
+	c15FreshParser(c)
 	c15Metadata(c)
 	c15Reader(c)
 	c15Parser(c)
@@ -654,9 +659,24 @@ func refreshMetadata(c *Ctx, rule string) {
 		case "(*filtering.DNSFilter).filterSetProperties$1", "(*filtering.DNSFilter).filterSetProperties$2", "(*filtering.DNSFilter).filterSetProperties$3":
 			// rollback closure: restores the value captured at entry, only when err != nil
 			okRb := true
+			var whyRb []string
 			for _, w := range ins {
 				st := w.(*ssa.Store)
-				if _, isParam := st.Val.(*ssa.Parameter); !isParam {
+				if _, isParam := st.Val.(*ssa.Parameter); isParam {
+					continue
+				}
+				// ... or a value that was read from this very field of a list (a snapshot taken before the change,
+				// kept in a local value or struct)
+				fr, _ := core.FieldOfAddr(st.Addr)
+				okO, nO := true, 0
+				for _, o := range core.Origins(st.Val, core.ProvOpts{Prog: p, InterprocDepth: 2}) {
+					nO++
+					if !(o.Kind == "field" && o.Key == "filtering.FilterYAML."+fr.Field) {
+						okO = false
+						whyRb = append(whyRb, fr.Field+" <- "+o.String())
+					}
+				}
+				if !okO || nO == 0 {
 					okRb = false
 				}
 			}
@@ -668,7 +688,7 @@ func refreshMetadata(c *Ctx, rule string) {
 			})
 			off, _ := core.UnguardedSinks(fn, isSink, g)
 			r.Check(okRb && n > 0 && len(off) == 0, rule, "metadata-rollback:"+fk, p.FnPos(fn),
-				"on error the previous rule count captured at entry is restored", "the rollback closure writes metadata that is not the previously captured value, or not only on error")
+				"on error the previous rule count captured at entry is restored", "the rollback closure writes metadata that is not the previously captured value, or not only on error", whyRb...)
 		default:
 			r.Fail(rule, "metadata-writer:"+fk, p.InstrPos(ins[0]),
 				"an unclassified function writes a list's rule count / checksum: metadata may diverge from the file on disk after a failed refresh")
@@ -819,7 +839,7 @@ func c15Parser(c *Ctx) {
 		for e := range edges {
 			tb := e.From.Succs[e.Succ]
 			ret, isRet := core.AsReturn(tb.Instrs[len(tb.Instrs)-1])
-			if !isRet || len(ret.Results) != 2 || core.IsNilConst(core.Res(ret, 1)) {
+			if !isRet || len(ret.Results) < 1 || core.IsNilConst(core.Res(ret, len(ret.Results)-1)) {
 				retHTML = false
 			}
 		}
@@ -953,8 +973,14 @@ func c15Parser(c *Ctx) {
 	errEdges, nE := core.CondEdges(pf, func(at core.Atom) (bool, bool) {
 		if (at.Op == token.NEQ || at.Op == token.EQL) && core.IsNilConst(at.Other) {
 			for _, l := range core.FlattenPhi(core.ResolveCellLoad(at.Base)) {
-				if e, ok := l.(*ssa.Extract); ok && e.Tuple == pl && e.Index == 1 {
+				// the error is the last result of processLine (its only one when the byte count is kept inside)
+				if e, ok := l.(*ssa.Extract); ok && e.Tuple == pl && e.Index == pl.Type().(*types.Tuple).Len()-1 {
 					return true, at.Op == token.NEQ
+				}
+				if l == pl {
+					if _, isTuple := pl.Type().(*types.Tuple); !isTuple {
+						return true, at.Op == token.NEQ
+					}
 				}
 			}
 		}
@@ -962,7 +988,7 @@ func c15Parser(c *Ctx) {
 	})
 	stops := nE == 1
 	for e := range errEdges {
-		if found, _, _ := core.Reach(core.Query{From: []core.Point{{Block: e.From.Succs[e.Succ], Idx: 0}}, Target: func(in ssa.Instruction) bool { return in == pls[0].Instr.(ssa.Instruction) }}); found {
+		if found, _, _ := core.Reach(core.Query{From: []core.Point{core.AfterEdge(e)}, Target: func(in ssa.Instruction) bool { return in == pls[0].Instr.(ssa.Instruction) }}); found {
 			stops = false
 		}
 	}
@@ -1139,4 +1165,74 @@ func isChecksumNeq(v ssa.Value) bool {
 	names := []string{f1.String(), f2.String()}
 	sort.Strings(names)
 	return names[0] == "filtering.FilterYAML.checksum" && names[1] == "filtering/rulelist.ParseResult.Checksum"
+}
+
+// c15SameScanBuffers: D5 — the parse that writes a list's file and the parse
+// that reads it back (load, after a restart) must accept the same lines: the
+// scanner's line limit is the capacity of the buffer it is given, so every
+// Parse call of the package takes its buffer from one and the same pool.
+func c15SameScanBuffers(c *Ctx) {
+	p, r := c.P, c.R
+	pools := map[string][]string{}
+	n := 0
+	for _, fn := range p.ModFnsIn("filtering") {
+		for _, call := range core.CallsTo(fn, "(*filtering/rulelist.Parser).Parse") {
+			n++
+			src := "?"
+			for _, o := range core.Origins(call.Arg(3), core.ProvOpts{Prog: p}) {
+				if o.Kind != "call" || !strings.Contains(o.Key, "syncutil.Pool") || !strings.HasSuffix(o.Key, ".Get") {
+					continue
+				}
+				if gc, _, ok := core.CallResult(o.Val); ok && len(gc.Common().Args) > 0 {
+					recv := core.ResolveCellLoad(gc.Common().Args[0])
+					if fr, _, isF := core.LoadedField(recv); isF {
+						src = "field " + fr.String()
+					} else if u, isU := recv.(*ssa.UnOp); isU {
+						if g, isG := u.X.(*ssa.Global); isG {
+							src = "package variable " + g.Name()
+						}
+					}
+				}
+			}
+			pools[src] = append(pools[src], core.FuncKey(fn))
+		}
+	}
+	var desc []string
+	for k, v := range pools {
+		sort.Strings(v)
+		desc = append(desc, fmt.Sprintf("%s: %v", k, v))
+	}
+	sort.Strings(desc)
+	_, unknown := pools["?"]
+	r.Check(n >= 2 && len(pools) == 1 && !unknown, "C15-D5", "parses-share-one-buffer-pool", "-",
+		"every parse of a list (download and re-read of the stored file) takes its scan buffer from the same pool, so both accept the same lines",
+		"the parses of a list take their scan buffers from different sources: a line length the downloading parse accepts can be over the limit of the parse that reads the stored file back (count and checksum are then lost after a restart and the list is rewritten on every refresh)", desc...)
+}
+
+// c15FreshParser: D5 (cont.) — the parser carries state that decides how lines
+// are classified (whether anything was written yet gates the HTML test, whether
+// the title was found): every parse of a list starts from a parser made for it
+// by NewParser, never from one that has parsed something else before.
+func c15FreshParser(c *Ctx) {
+	p, r := c.P, c.R
+	n := 0
+	var bad []string
+	for _, fn := range p.ModFns {
+		if fn.Blocks == nil || core.IsNextPkg(fn) {
+			continue
+		}
+		for _, call := range core.CallsTo(fn, "(*filtering/rulelist.Parser).Parse") {
+			n++
+			for _, o := range core.Origins(call.Arg(0), core.ProvOpts{Prog: p, InterprocDepth: 2}) {
+				if o.Kind == "call" && o.Key == "filtering/rulelist.NewParser" {
+					continue
+				}
+				bad = append(bad, p.InstrPos(call.Instr)+": the parser comes from "+o.String())
+			}
+		}
+	}
+	sort.Strings(bad)
+	r.Check(n >= 2 && len(bad) == 0, "C15-D5", "every-parse-starts-from-a-new-parser", "-",
+		"every parse of a list uses a parser made for it by NewParser",
+		"a list can be parsed with a parser that has parsed something before: state such as 'something was written already' survives, and the HTML test (or the title search) is skipped for the list", bad...)
 }
